@@ -172,6 +172,36 @@ def general_cards(rng, nf_from, nf_to, *, qcd=1, qed=0, sv="none", xif=1.0, pol=
     return runcards.TheoryCard.from_dict(th), runcards.OperatorCard.from_dict(op)
 
 
+def sibling_solve(th, op, rng):
+    """A solve earlier in the same process that differs from (th, op) in ONE field: the initial nf
+    (same scale: also an accepted point), or the QCD order, or the method.  Its result is thrown
+    away; whatever module-level state it leaves behind must not reach the next solve."""
+    import eko
+    from harness.drivers import runner
+
+    th2, op2 = copy.deepcopy(th), copy.deepcopy(op)
+    what = rng.choice(["nf0", "nf0", "order", "method"])
+    if what == "nf0":
+        mu0, nf0 = op2.init
+        nf2 = rng.choice([n for n in (nf0 - 1, nf0 + 1) if 3 <= n <= 6])
+        op2.init = (mu0, nf2)
+        op2.mugrid = [(mu0, nf2)] if len(op2.mugrid) == 1 and tuple(op2.mugrid[0]) == (mu0, nf0) else op2.mugrid
+    elif what == "order":
+        qcd = th2.order[0]
+        th2.order = (qcd - 1 if qcd > 1 else qcd + 1, th2.order[1])
+        th2.matching_order = (th2.order[0] - 1, 0)
+    else:
+        from eko.io.types import EvolutionMethod
+
+        op2.configs.evolution_method = EvolutionMethod.TRUNCATED if op2.configs.evolution_method != EvolutionMethod.TRUNCATED else EvolutionMethod.ITERATE_EXACT
+    with runner.scratch() as root, runner.shimmed():
+        try:
+            eko.solve(th2, op2, root / "sib.tar")
+        except Exception:  # noqa: BLE001 - only its side effects matter
+            pass
+    return what
+
+
 def solve_blocks(th, op):
     import eko
     from eko.io.struct import EKO
